@@ -9,6 +9,7 @@ CONSTANTS
   AllowImport = TRUE
   PersistIns = "sync"
   PersistRem = "sync"
+  CommitFlush = TRUE
   OneBatch = TRUE
   CasFirst = FALSE
   Gen = FALSE
